@@ -6,7 +6,7 @@ import pattern as P
 import rlpclass
 import shapes
 from common import short
-from kernel import ok_payload, payload_base, same_value, strip
+from kernel import assume, ok_payload, payload_base, same_value, strip
 from rules.c01 import ret_exprs
 from rules.tables import const_key, typed_calls, value_class_of_expr
 from rules.typestate import const_int, value_is_rlp_of
@@ -88,7 +88,17 @@ def writers_rule(ctx, report, rule="WRITE"):
         calls = typed_calls(ctx, f, ("insert", "insert_raw_rlp"))
         name = f.name
         for guard, key, cls in rows:
-            mine = [c for c in calls if (guard is None or variant_at(an, c["bb"], 2) == guard)]
+            if guard is None:
+                mine = calls
+            else:
+                # partial evaluation for this variant of the address parameter: the paths of the other variant are cut
+                def pred(cond, names, _g=guard):
+                    c = strip(cond)
+                    if c.k == "discr" and names and strip(c.a[0]).k == "param" and strip(c.a[0]).a[0] == 2:
+                        return {_g}
+                    return None
+                van = assume(an, pred)
+                mine = typed_calls_an(ctx, f, van, ("insert", "insert_raw_rlp"))
             ok = len(mine) == 1
             why = "%d insert calls%s" % (len(mine), " on the %s branch" % guard if guard else "")
             if ok:
@@ -103,7 +113,9 @@ def writers_rule(ctx, report, rule="WRITE"):
                 if ok and cls == U16 and not (v.k == "param" and v.a[0] == 2):
                     ok, why = False, "stores %s, not the port parameter" % short(v, 80)
                 if ok and cls[0] == "BYTES":
-                    src = v.a[1][0] if (v.k == "call" and v.a[1]) else None
+                    from rules.tables import peel_bytes
+                    v = peel_bytes(v)
+                    src = v.a[1][0] if (v.k == "call" and v.a[0].name == "octets" and v.a[1]) else None
                     good = src is not None and strip(src).k == "vfield" and strip(strip(src).a[0]).k == "param" and strip(src).a[1] == guard
                     if not good:
                         ok, why = False, "stores %s, not the octets of the %s address parameter" % (short(v, 80), guard)
